@@ -20,6 +20,9 @@
 //! the diagnosis `stall:flow-control:{conn,stream,streams}`: when a case does not complete, the endpoints' own qlog
 //! (`sim::PacketTap`) is searched for a sender that stopped at a flow-control limit — bytes / streams sent vs. the last and
 //! the largest MAX_DATA / MAX_STREAM_DATA / MAX_STREAMS it processed and the largest its peer says it sent.  No model is consulted.
+//! `receive-path-blocked`: a datagram waited >= 1 s of virtual time in a socket's buffer before the interface's receive task read
+//! it (`sim::SimIo::poll_recv`, count `rx_wait_max_ms`; healthy: 0 ms) — finding 5, docs/C02.md §10.  Every run ends with the fixed
+//! `REGRESSION` cases (ids 1_000_000 + k), the (seed, case) pairs that exposed finding 5.
 //! Transcript: `cfg`, `wire params …`, C02's application lines, `wire flow <ep> …`, `end`; the driver is C02's.
 use std::{
     collections::{BTreeMap, HashMap},
@@ -555,17 +558,28 @@ fn diagnose(pk: &[PktEv], plans: &[Plan], c: &Side, s: &Side) -> (Vec<(String, S
 // driver
 // ---------------------------------------------------------------------------------------------
 
+/// (seed, case) of the quick tier that stalled the handshake on the unchanged code (finding 5): client→server reordering
+/// (hold-c2s / hold-both, hold_pass 8) while the client writes ≈ 400 kB at once ⇒ > 128 early 1-RTT packets.
+const REGRESSION: &[(u64, u64)] = &[(1001, 100), (12, 758), (13, 330)];
+const REG_BASE: u64 = 1_000_000;
+
 fn run(o: &Opts) {
     let mut sink = Sink::new_with_stats(&o.out, &o.stats);
     sink.set_hang_secs(300);
-    let ids: Vec<u64> = match o.only_case { Some(i) => vec![i], None => (0..o.cases).collect() };
-    let seed = o.seed;
-    let thorough = o.thorough();
+    // Every run ends with the fixed REGRESSION cases (ids 1_000_000 + k; `--only-case 1000000` replays one): the (seed, case)
+    // pairs that exposed finding 5 (docs/C02.md §9/§10), drawn at the quick tier whatever `--seed` / `--tier` say.
+    let ids: Vec<u64> = match o.only_case { Some(i) => vec![i], None => (0..o.cases).chain((0..REGRESSION.len() as u64).map(|k| REG_BASE + k)).collect() };
+    let run_seed = o.seed;
+    let run_thorough = o.thorough();
     let mut totals = BTreeMap::<String, u64>::new();
     for chunk in ids.chunks(6) {
         sink.pending(&format!("cases {chunk:?}"));
         eprintln!("gmq-sim c02_small: running cases {chunk:?} (re-run one with --only-case)");
-        let hs: Vec<_> = chunk.iter().map(|&id| std::thread::spawn(move || {
+        let hs: Vec<_> = chunk.iter().map(|&case_id| std::thread::spawn(move || {
+            let (seed, id, thorough) = match REGRESSION.get(case_id.wrapping_sub(REG_BASE) as usize) {
+                Some(&(sd, c)) if case_id >= REG_BASE => (sd, c, false),
+                _ => (run_seed, case_id, run_thorough),
+            };
             let mut rng = Rng::new(seed ^ 0x5a11, id);
             let (cs, ss) = match rng.below(8) {
                 0 => (false, false),
@@ -584,8 +598,8 @@ fn run(o: &Opts) {
             let idle = Duration::from_secs(c.idle_s.min(s.idle_s));
             let adv = CtrlAdversary::new(Rng::new(seed ^ 0xADD5, id), profile.clone(), tap.clone());
             let pl2 = plans.clone();
-            let out = sim::run_case(id, Duration::from_secs(120), move || c02::one_case_adv(Box::new(adv), pl2, idle, Duration::from_secs(120), cfg, true));
-            (id, c, s, mode, plans, profile, out, tap.take())
+            let out = sim::run_case(case_id, Duration::from_secs(120), move || c02::one_case_adv(Box::new(adv), pl2, idle, Duration::from_secs(120), cfg, true));
+            (case_id, c, s, mode, plans, profile, out, tap.take())
         })).collect();
         for h in hs {
             let (id, c, s, mode, plans, profile, out, pk) = h.join().expect("case thread");
@@ -654,6 +668,12 @@ fn run(o: &Opts) {
             }
             for (k, w) in &r.fails {
                 sink.monitor_fail(k, &format!("{w} (profile {})", profile.name));
+            }
+            // receive path must never block on one connection (docs/C02.md §9, finding 5): a datagram waited in a socket's
+            // buffer for >= 1 s of VIRTUAL time before the interface's receive task read it (healthy: 0 ms; the clock only
+            // advances while all tasks are idle, so the task was parked on something other than the socket)
+            if let Some(&ms) = r.counts.get("rx_wait_max_ms").filter(|&&ms| ms >= 1000) {
+                sink.monitor_fail("receive-path-blocked", &format!("a datagram sat {ms} ms (virtual) in a socket's receive buffer before the interface's receive task read it: the receive task was blocked on a connection's packet queue (profile {}, server_saw_conn={})", profile.name, r.server_saw_conn));
             }
             for (ep, t) in [("client", &r.term_c), ("server", &r.term_s)] {
                 if let Some(k) = t {
